@@ -41,9 +41,13 @@ func (ex *Exec) typeAssert(st *State, in *ssa.TypeAssert, pos string) {
 	x := ex.term(st, in.X)
 	var ok *Term
 	var v Val
-	if _, isIface := in.AssertedType.Underlying().(*types.Interface); isIface {
-		f := p.Func("implements:"+shortTypeName(in.AssertedType), []*Sort{IntSort}, BoolSort)
-		ok = p.And(p.Not(p.Eq(x, p.Int(0))), p.App(f, ex.dynType(x)))
+	if it, isIface := in.AssertedType.Underlying().(*types.Interface); isIface {
+		if types.Implements(in.X.Type(), it) || types.AssignableTo(in.X.Type(), in.AssertedType) {
+			ok = p.Not(p.Eq(x, p.Int(0)))
+		} else {
+			f := p.Func("implements:"+shortTypeName(in.AssertedType), []*Sort{IntSort}, BoolSort)
+			ok = p.And(p.Not(p.Eq(x, p.Int(0))), p.App(f, ex.dynType(x)))
+		}
 		v = x
 	} else {
 		ok = p.And(p.Not(p.Eq(x, p.Int(0))), p.Eq(ex.dynType(x), ex.typeID(in.AssertedType)))
@@ -451,6 +455,49 @@ func (ex *Exec) doCall(fr *frame, st *State, cc *ssa.CallCommon, fnv Val, args [
 			if alts, ok := ex.condClosures[t]; ok && len(alts) == 1 {
 				c := alts[0].v.(*ClosureV)
 				callee, bind = c.Fn, c.Bind
+			} else if ok && len(alts) > 1 && len(alts) <= 4 {
+				// a small set of known closures selected by path: run each under its condition and merge
+				var sts []*State
+				var results []Val
+				allKnown := true
+				for _, a := range alts {
+					if _, isC := a.v.(*ClosureV); !isC {
+						allKnown = false
+					}
+				}
+				if allKnown {
+					for _, a := range alts {
+						c := a.v.(*ClosureV)
+						s2 := st.fork()
+						s2.pc = ex.p.And(st.pc, a.c)
+						if s2.pc.IsFalse() {
+							continue
+						}
+						tmpCC := *cc
+						ex.callKnown(fr, s2, &tmpCC, c.Fn, c.Bind, args, pos, func(v Val) { results = append(results, v) })
+						sts = append(sts, s2)
+					}
+					if len(sts) == 0 {
+						st.pc = ex.p.False()
+						ex.setResult(st, instr, ex.freshResults(st, cc.Signature(), "dyn"))
+						return
+					}
+					res := results[0]
+					for i := 1; i < len(sts); i++ {
+						m, err := ex.mergeVals(sts[i].pc, results[i], res)
+						if err != nil {
+							ex.fail("dynamic call: %v", err)
+						}
+						res = m
+					}
+					m, err := ex.merge(sts)
+					if err != nil {
+						ex.fail("dynamic call: %v", err)
+					}
+					*st = *m
+					ex.setResult(st, instr, res)
+					return
+				}
 			}
 		}
 		if callee == nil {
@@ -463,11 +510,16 @@ func (ex *Exec) doCall(fr *frame, st *State, cc *ssa.CallCommon, fnv Val, args [
 		c := ex.val(st, mc).(*ClosureV)
 		bind = c.Bind
 	}
+	ex.callKnown(fr, st, cc, callee, bind, args, pos, func(v Val) { ex.setResult(st, instr, v) })
+}
+
+// callKnown dispatches a call whose target function is known.
+func (ex *Exec) callKnown(fr *frame, st *State, cc *ssa.CallCommon, callee *ssa.Function, bind []Val, args []Val, pos string, setRes func(Val)) {
 	c := ex.P.ContractFor(callee)
 	switch {
 	case c != nil && !c.Inline:
 		names, ptypes := sigNames(callee, c)
-		ex.setResult(st, instr, ex.contractCall(fr, st, c, ex.fnName(callee), callee.Signature, names, ptypes, args, pos))
+		setRes(ex.contractCall(fr, st, c, ex.fnName(callee), callee.Signature, names, ptypes, args, pos))
 	case ex.isOpaqueFn(callee) && c == nil:
 		ex.assumptions["opaque (no effect, unconstrained result): "+callee.String()] = true
 		r := ex.freshResults(st, callee.Signature, callee.Name())
@@ -477,13 +529,13 @@ func (ex *Exec) doCall(fr *frame, st *State, cc *ssa.CallCommon, fnv Val, args [
 			ex.facts = append(ex.facts, ex.p.Gt(r.(*Term), ex.p.Int(0)))
 			ex.errFresh(st, r.(*Term))
 		}
-		ex.setResult(st, instr, r)
+		setRes(r)
 	case callee.Blocks != nil && ex.canInline(callee):
-		ex.setResult(st, instr, ex.inlineCall(st, callee, args, bind, pos))
+		setRes(ex.inlineCall(st, callee, args, bind, pos))
 	default:
 		ex.assumptions["havoc (no contract): "+callee.String()] = true
 		ex.havocCall(st, pos, callee.String())
-		ex.setResult(st, instr, ex.freshResults(st, callee.Signature, callee.Name()))
+		setRes(ex.freshResults(st, callee.Signature, callee.Name()))
 	}
 }
 
@@ -540,6 +592,9 @@ func (ex *Exec) canInline(fn *ssa.Function) bool {
 		if f == fn {
 			return false
 		}
+	}
+	if fn.Synthetic != "" && fn.Blocks != nil {
+		return true // bound-method / promoted-method wrappers
 	}
 	if fn.Pkg == nil || !strings.HasPrefix(fn.Pkg.Pkg.Path(), modPrefix) {
 		// closures of repo functions have Pkg set too; external bodies are not loaded
